@@ -196,7 +196,8 @@ class BranchWInternalsComponent(BranchComponent):
             set_entry_check_repeat(branch_w_internals_pit, D, net[tbl].inner_diameter_mm.values / 1000., internal_branch_number,
                 has_internals)
             if "outer_diameter_mm" in net[tbl]:
-                outer = net[tbl].outer_diameter_mm.values
+                # copy: the missing values are filled below and must not be written into the user's table
+                outer = np.array(net[tbl].outer_diameter_mm.values, dtype=np.float64)
                 inner = net[tbl].inner_diameter_mm.values
                 outer[pd.isnull(outer)] = inner[pd.isnull(outer)]
                 set_entry_check_repeat(branch_w_internals_pit, DO, outer / 1000., internal_branch_number,
